@@ -117,7 +117,8 @@ def run_enum(check_program, rec, known, depth, idx, nshards):
     setup_process()
     out = Outcome()
     n = 0
-    for i, (names, node) in enumerate(enumprogs.enum_programs(depth)):
+    import itertools
+    for i, (names, node) in enumerate(itertools.chain(enumprogs.enum_structural(), enumprogs.enum_programs(depth))):
         if i % nshards != idx:
             continue
         try:
